@@ -5,7 +5,7 @@
    Proofs live in Bac.CovFacts / Bac.CovRun / Bac.CovQueue.  `inv` is the reachable-state invariant
    (no two table entries with one key; object identifiers distinct; every entry unexpired),
    `wf_ev` says lifetimes are unsigned and time does not run backwards. *)
-From Bac Require Import Base Cov CovFacts CovRun CovQueue.
+From Bac Require Import Base Cov CovFacts CovRun CovQueue CovRound.
 Open Scope Z_scope.
 
 (* every state reachable from a device with distinct object identifiers, by ANY interleaving of well-formed events,
@@ -184,6 +184,55 @@ Theorem C16_subscription_persists : forall s e s' out x, inv s -> wf_ev e -> ste
 Proof. exact subscription_persists. Qed.
 Print Assumptions C16_subscription_persists.
 
+(* ---- whole rounds, from one quiescent instant (empty deferred queue) to the next: the sentence of the property itself.
+   `reference o` = COVIncrementCriteria.previous_reported_value (the value of the last notification; the value the object
+   had while nothing has been reported yet).  A presentValue write on an analog / pulse-converter object followed by the
+   drain: at least one increment away from the reference => every subscription of the object gets exactly one
+   notification (mode, time remaining of its entry; the written value, the current flags) and the written value is the
+   new reference; less than one increment => nobody gets anything and the reference stays. *)
+Theorem C16_change_round_increment : forall s i v o s1 o1 s2 out,
+  inv s -> qinv s -> queue s = [] -> nth_error (objs s) i = Some o -> bound o = true -> reports_prev (okind o) = true ->
+  step s (Write i PPv v) = (s1, o1) -> step s1 Drain = (s2, out) ->
+  o_ntfs o1 = [] /\ queue s2 = [] /\ subs s2 = subs s /\
+  (inc o <= Z.abs (v - reference o) ->
+     o_ntfs out = map (fun x => mkNtf (s_cli x) (s_proc x) (s_oid x) (s_conf x) (trem (now s) x) v (fl o) (now s))
+                      (subs_of (oid o) (subs s)) /\
+     NoDup (map nkey (o_ntfs out)) /\
+     exists ob', find_obj (oid o) (objs s2) = Some ob' /\ reference ob' = v /\ pv ob' = v /\ trig ob' = false) /\
+  (Z.abs (v - reference o) < inc o ->
+     o_ntfs out = [] /\
+     exists ob', find_obj (oid o) (objs s2) = Some ob' /\ reference ob' = reference o /\ pv ob' = v /\ trig ob' = false).
+Proof. exact change_round_increment. Qed.
+Print Assumptions C16_change_round_increment.
+
+(* ... for the other objects (and for status flags / the increment of analog objects): any change of a tracked
+   property notifies every subscription of the object once, an equal value nobody *)
+Theorem C16_change_round_generic : forall s i p v o s1 o1 s2 out,
+  inv s -> qinv s -> queue s = [] -> nth_error (objs s) i = Some o -> bound o = true ->
+  has_prop (okind o) p = true -> tracked (okind o) p = true -> (p = PPv -> reports_prev (okind o) = false) ->
+  step s (Write i p v) = (s1, o1) -> step s1 Drain = (s2, out) ->
+  (get_val o p <> v ->
+     o_ntfs out = map (mk_ntf (now s) (set_val o p v)) (subs_of (oid o) (subs s)) /\ NoDup (map nkey (o_ntfs out))) /\
+  (get_val o p = v -> o_ntfs out = []).
+Proof. exact change_round_generic. Qed.
+Print Assumptions C16_change_round_generic.
+
+(* bursts within one instant: the first write crosses the increment, ANY number of further presentValue writes follow
+   before the deferred notification runs.  One notification per subscription, carrying the LAST value written, and that
+   value - the one actually reported, not the one that set the trigger - is the reference of the increment test from
+   then on (DetectionMonitor.property_change mirrors every write into the algorithm before the _triggered short-cut). *)
+Theorem C16_burst_reports_last : forall vs s i v1 o s' outs,
+  inv s -> qinv s -> queue s = [] -> nth_error (objs s) i = Some o -> bound o = true -> reports_prev (okind o) = true ->
+  inc o <= Z.abs (v1 - reference o) ->
+  run s (Write i PPv v1 :: map (Write i PPv) vs ++ [Drain]) = (s', outs) ->
+  let w := last vs v1 in
+  all_ntfs outs = map (fun x => mkNtf (s_cli x) (s_proc x) (s_oid x) (s_conf x) (trem (now s) x) w (fl o) (now s))
+                      (subs_of (oid o) (subs s)) /\
+  NoDup (map nkey (all_ntfs outs)) /\ subs s' = subs s /\ queue s' = [] /\
+  exists ob', find_obj (oid o) (objs s') = Some ob' /\ reference ob' = w /\ pv ob' = w /\ trig ob' = false.
+Proof. exact burst_reports_last. Qed.
+Print Assumptions C16_burst_reports_last.
+
 (* C16-F3 (known finding): the increment reference is per object and is moved by the initial notification of
    somebody else.  Witness: increment 10.0; subscriber 2 is told 0.0 and nothing ever again, while the value creeps
    8.0 at a time between (re)subscriptions of subscriber 3 and ends at 30.0 = three increments away. *)
@@ -214,6 +263,25 @@ Proof.
   apply C16_reachable_all; [exact (init_inv _ C16_ex_cfg_nodup)|split; constructor| |repeat constructor; cbn; lia].
   apply init_q. repeat constructor.
 Qed.
+(* a quiescent state with two subscriptions of the analog value: the hypotheses of the round theorems hold; the burst
+   0 -> 48 -> 40 (increment 10.0 = 40 quarters) is reported once to each with 40, and 40 is the new reference:
+   the next round 40 -> 79 is silent, 40 -> 80 is not *)
+Definition ex_s0 : st := fst (run (init ex_cfg) [Subscribe 2 1 ex_av true (Some 5); Subscribe 3 1 ex_av false None]).
+Example C16_ex_round_hyps : inv ex_s0 /\ qinv ex_s0 /\ queue ex_s0 = [] /\
+  exists o, nth_error (objs ex_s0) 0 = Some o /\ bound o = true /\ reports_prev (okind o) = true /\
+    reference o = 0 /\ inc o <= Z.abs (48 - reference o) /\ Z.abs (39 - reference o) < inc o.
+Proof.
+  assert (H : inv ex_s0 /\ idinv ex_s0 /\ qinv ex_s0).
+  { apply C16_reachable_all; [exact (init_inv _ C16_ex_cfg_nodup)|split; constructor| |repeat constructor; cbn; lia].
+    apply init_q. repeat constructor. }
+  destruct H as [A [_ B]]. split; [exact A|]. split; [exact B|]. split; [vm_compute; reflexivity|].
+  eexists. split; [vm_compute; reflexivity|]. vm_compute. repeat split; congruence.
+Qed.
+Example C16_ex_burst :
+  map (fun o => map canon_ntf (o_ntfs o))
+      (snd (run ex_s0 [Write 0 PPv 48; Write 0 PPv 40; Drain; Write 0 PPv 79; Drain; Write 0 PPv 1; Drain; Write 0 PPv 0; Drain])) =
+  [[]; []; [[2; 1; ex_av; 1; 5; 40; 0]; [3; 1; ex_av; 0; 0; 40; 0]]; []; []; []; []; []; [[2; 1; ex_av; 1; 5; 0; 0]; [3; 1; ex_av; 0; 0; 0; 0]]].
+Proof. vm_compute. reflexivity. Qed.
 (* the stepped queue: a subscribe delivered between trigger and execute gets the change notification and then its
    initial one; a cancel overtaking the deferred initial notification silences it *)
 Example C16_ex_stepped :
